@@ -49,7 +49,7 @@ class Program:
         if k == 'array':
             return ('A', (self.zero(t['elem']),) * t['len'])
         if k == 'struct':
-            return ('T', tuple(self.zero(f['type']) for f in t['fields']))
+            return ('T', tuple(self.zero(f['type']) for f in (t.get('fields') or [])))
         return None  # ptr, iface, map, func, chan, nil
 
     def const(self, o):
